@@ -533,6 +533,15 @@ func runMergePlan(c *Ctx, i int, rng *rand.Rand, class string, slice int) {
 			guard(c.R, tag+" vectors", func() { checkVectors(c, tag, o, mm, rng) })
 		}
 		if c.R.Failed() {
+			if dd := os.Getenv("VERIF_DEBUG_DUMP"); dd != "" {
+				os.MkdirAll(dd, 0755)
+				os.WriteFile(dd+"/"+id+"-merged.zap", readFile(out), 0644)
+				for k, in := range st.inputs {
+					if segsPool[in].path != "" {
+						os.WriteFile(fmt.Sprintf("%s/%s-input%d.zap", dd, id, k), readFile(segsPool[in].path), 0644)
+					}
+				}
+			}
 			break
 		}
 	}
